@@ -110,6 +110,10 @@ def generate(targets, prop):
             fr.error = f"function not found in current source: {e}"
         except RecursionError:
             fr.error = "interpreter recursion limit"
+        except Exception as e:  # noqa
+            # a harness that looks up attributes / keys / positions the unchanged code produces fails this way when the code was
+            # restructured: nothing is decided for this target (on the unchanged tree the lock comparison shows the missing obligations)
+            fr.error = f"harness error ({type(e).__name__}: {str(e)[:200]}): the code under contract no longer has the shape this harness speaks about"
         fr.gen_s = time.time() - t0
         out.append(fr)
     return out
